@@ -112,3 +112,14 @@ func TestReplay(t *testing.T) {
 	fmt.Printf("NOT-REPRODUCED check=%s\n", r.Check)
 	os.Exit(5)
 }
+
+// TestRunSeed runs one generated run (no explicit steps) of $VERIF_ENGINE / $VERIF_PROFILE
+// / $VERIF_RUNSEED; used to confirm a process death attributed to that seed.
+func TestRunSeed(t *testing.T) {
+	if os.Getenv("VERIF_RUNSEED") == "" || os.Getenv("VERIF_ENGINE") == "" {
+		t.Skip("no VERIF_RUNSEED / VERIF_ENGINE")
+	}
+	seed, _ := strconv.ParseUint(os.Getenv("VERIF_RUNSEED"), 10, 64)
+	res := engineRun(os.Getenv("VERIF_ENGINE"))(t, RunSpec{Seed: seed, Profile: os.Getenv("VERIF_PROFILE")})
+	fmt.Printf("SURVIVED violations=%d harness=%q\n", len(res.Violations), res.Harness)
+}
